@@ -199,17 +199,9 @@ class FileResponseMixin:
             return ranges
 
         result: List[Tuple[int, int]] = []
-        for start, end in ranges:
-            for p in range(len(result)):
-                p_start, p_end = result[p]
-                if start > p_end:
-                    continue
-                elif end < p_start:
-                    result.insert(p, (start, end))
-                    break
-                else:
-                    result[p] = (min(start, p_start), max(end, p_end))
-                    break
+        for start, end in sorted(ranges):
+            if result and start <= result[-1][1]:
+                result[-1] = (result[-1][0], max(result[-1][1], end))
             else:
                 result.append((start, end))
         return result
